@@ -229,6 +229,10 @@ UnitsPtr Model::takeUnits(const std::string &name)
 bool Model::replaceUnits(size_t index, const UnitsPtr &units)
 {
     bool status = false;
+    if (units == nullptr) {
+        return false;
+    }
+
     if (removeUnits(index)) {
         pFunc()->mUnits.insert(pFunc()->mUnits.begin() + ptrdiff_t(index), units);
         units->pFunc()->setParent(shared_from_this());
